@@ -668,6 +668,13 @@ pub fn run_shape<T: Trie>(shape_idx: u64, depth: usize, threads: usize) -> Acc {
             });
         }
         acc.st.sample(|| json!({"shape": T::NAME, "state": model_str(&model), "history": term}));
+        // A state whose reveal differs from the model's is already reported above; it is not
+        // expanded further (a trie that e.g. duplicates rows would make the state space unbounded,
+        // while correct states number at most 2^8).
+        if obj.reveal() != expected_reveal(&model, T::KEYS) {
+            acc.count(&format!("{}:corrupt_states_not_expanded", T::NAME));
+            return;
+        }
         states.push(State { obj, model, term });
     };
 
